@@ -953,6 +953,7 @@ func (s *c10pseq) evalShareIdx(r *enumx.Run, u c10punit, x int32) {
 
 func c10peerExtra(ctx context.Context, r *enumx.Run, h *c10peerH) {
 	s := c10newPseq(ctx, h)
+	c10peerPairs(r, h) // two entries of one set that are invalid together (zz_verif_c10p_test.go)
 	c10peerSequences(r, s)
 	c10peerFaults(r, s)
 	c10peerBoundaries(r, s)
@@ -970,6 +971,8 @@ func c10peerReplayExtra(ctx context.Context, r *enumx.Run, h *c10peerH, c c10cas
 				s.evalFault(r, &c10fc{Client: h.cl.bmock}, op, c)
 			}
 		}
+	case "peer-pair":
+		c10peerPairReplay(r, h, c)
 	case "peer-gater":
 		var t int
 		fmt.Sscanf(c.Alt, "dutytype-%d", &t)
